@@ -81,6 +81,24 @@ static void objects() {      // every alloc/new/delete pair of the public alloca
     led::Snap s1 = led::snap();
     report("objects", "small", s0, s1, 0, 0, 0);
 }
+// polynomial-level routines at the exponents and sizes where index arithmetic degenerates (first / second half empty): under --guard an access one past a
+// coefficient array faults, and red zones see the writes
+static void polyops() {
+    led::Snap s0 = led::snap(); uint64_t h = 11;
+    { int Ns[3] = {256, 512, 1024};
+      for (int q = 0; q < 3; q++) { int N = Ns[q];
+        TorusPolynomial* a = new_TorusPolynomial(N); TorusPolynomial* r = new_TorusPolynomial(N); IntPolynomial* ia = new_IntPolynomial(N); IntPolynomial* ir = new_IntPolynomial(N);
+        for (int i = 0; i < N; i++) { a->coefsT[i] = (Torus32)(i * 2654435761u); ia->coefs[i] = (i % 7) - 3; }
+        int ex[8] = {0, 1, N - 1, N, N + 1, 2 * N - 1, N / 2, 3 * N / 2};
+        for (int e = 0; e < 8; e++) { torusPolynomialMulByXai(r, ex[e], a); h = hPoly(r, h); torusPolynomialMulByXaiMinusOne(r, ex[e], a); h = hPoly(r, h); intPolynomialMulByXaiMinusOne(ir, ex[e], ia); h = hmix(h, ir->coefs, 4 * (size_t)N); }
+        torusPolynomialMultKaratsuba(r, ia, a); h = hPoly(r, h); torusPolynomialAddMulRKaratsuba(r, ia, a); h = hPoly(r, h); torusPolynomialSubMulRKaratsuba(r, ia, a); h = hPoly(r, h);
+        if (N <= 512) { torusPolynomialMultNaive(r, ia, a); h = hPoly(r, h); }
+        torusPolynomialAddMulZ(r, a, 0, a); torusPolynomialSubMulZTo(r, -3, a); torusPolynomialAddTo(r, a); h = hPoly(r, h);
+        if (N == 1024) { torusPolynomialMultFFT(r, ia, a); torusPolynomialAddMulRFFT(r, ia, a); torusPolynomialSubMulRFFT(r, ia, a); }     // (FFT results differ in the last bits between back-ends: not hashed)
+        delete_TorusPolynomial(a); delete_TorusPolynomial(r); delete_IntPolynomial(ia); delete_IntPolynomial(ir); } }
+    led::Snap s1 = led::snap();
+    report("polyops", "N=256,512,1024", s0, s1, h, 0, 0);
+}
 static void threads(int T) {  // per-thread FFT state must be released when the thread exits
     led::Snap s0 = led::snap();
     for (int r = 0; r < T; r++) { std::thread t([]() { IntPolynomial* p = new_IntPolynomial(1024); TorusPolynomial* q = new_TorusPolynomial(1024); TorusPolynomial* o = new_TorusPolynomial(1024);
@@ -93,12 +111,14 @@ static void threads(int T) {  // per-thread FFT state must be released when the 
 int main(int argc, char** argv) {
     vh_init();
     led::fill = (int)vh_arg(argc, argv, "--fill", 0xA5);
+    led::guard = (int)vh_arg(argc, argv, "--guard", 0);        // end 1..64 KiB blocks on an inaccessible page: an access past the end of a polynomial / sample array faults
     unsigned seed = vh_arg(argc, argv, "--seed", 1);
     // warm-up: the main thread's FFT processor and stdio buffers are allocated outside every window
     { IntPolynomial* p = new_IntPolynomial(1024); TorusPolynomial* q = new_TorusPolynomial(1024); TorusPolynomial* o = new_TorusPolynomial(1024); intPolynomialClear(p); torusPolynomialClear(q); torusPolynomialMultFFT(o, p, q); delete_TorusPolynomial(o); delete_TorusPolynomial(q); delete_IntPolynomial(p);
       std::ostringstream w; w << 1.5 << 12; std::istringstream r("1 2"); int z; r >> z;
       std::thread t0([]() { IntPolynomial* p = new_IntPolynomial(8); delete_IntPolynomial(p); }); t0.join(); }      // one-time allocations of the threading runtime
     objects();
+    polyops();
     threads((int)vh_arg(argc, argv, "--threads", 4));
     std::vector<long> ns = vh_list(vh_sarg(argc, argv, "--n", "1,3,7,8,9,64"));
     // (l, Bgbit, t, basebit): valid layouts (l*Bgbit >= 20, t*basebit >= 15), incl. the extremes l*Bgbit = 32, t*basebit = 31, Bgbit = 2, basebit = 1
